@@ -41,6 +41,11 @@ theorem scanToWs_ok (dia : Dialect) (ctx : Str) (hctx : ctx = [] ∨ ∃ d r, ct
     rw [this, colAdd_cons]
     simp [Nat.add_comm, Nat.add_left_comm]
 
+theorem wsOrEnd_iff {ctx : Str} (h : wsOrEnd ctx = true) : ctx = [] ∨ ∃ d r, ctx = d :: r ∧ isWs d = true := by
+  cases ctx with
+  | nil => exact Or.inl rfl
+  | cons d r => exact Or.inr ⟨d, r, rfl, by simpa [wsOrEnd] using h⟩
+
 /-- what a data name / block code / frame code consists of: allowed characters, none of them whitespace -/
 def nonBlankOk (dia : Dialect) (s : Str) : Bool := okUnits dia none s && s.all (fun x => !isWs x)
 
@@ -322,5 +327,221 @@ theorem stepTok_loop (dia : Dialect) (a b c d e : Nat) (ctx : Str)
     rw [this _ _ rfl trivial rfl (fun _ => rfl)]
   rw [L.bind_ok hscan]
   simp [finishUnquoted, classify_loop dia a b c d e ⟨h1, h2, h3, h4, h5⟩, mkTok]
+
+
+/-! ### a whitespace-delimited value directly followed by a closing bracket (CIF 2.0) -/
+
+/-- scan_unquoted's keyword bookkeeping: offset and the data_/save_ flags after one more unit of GENERAL metaclass -/
+def kwStep (dia : Dialect) (st : Nat × Bool × Bool) (c : Nat) : Nat × Bool × Bool :=
+  (st.1 + 1, (if st.1 < 5 then st.2.1 && (classOf dia c == dataCls st.1) else st.2.1),
+             (if st.1 < 5 then st.2.2 && (classOf dia c == saveCls st.1) else st.2.2))
+
+def kwAfter (dia : Dialect) (k : Nat) (kd ks : Bool) (s : Str) : Nat × Bool × Bool := s.foldl (kwStep dia) (k, kd, ks)
+
+theorem kwAfter_ge5 (dia : Dialect) : ∀ (s : Str) (k : Nat) (kd ks : Bool), 5 ≤ k → kwAfter dia k kd ks s = (k + s.length, kd, ks) := by
+  intro s
+  induction s with
+  | nil => intro k kd ks _; rfl
+  | cons c s ih =>
+    intro k kd ks hk
+    have h5 : ¬ k < 5 := by omega
+    simp only [kwAfter, List.foldl_cons, kwStep, h5, if_false]
+    have := ih (k + 1) kd ks (by omega)
+    simp only [kwAfter] at this
+    rw [this]; simp [Nat.add_assoc, Nat.add_comm 1]
+
+/-- scan_unquoted over a bare value that is directly followed by a closing bracket or brace: the value ends there provided
+    the keyword flags are off (or fewer than five units were scanned) when the bracket is met -/
+theorem scanUnquoted_close (d : Nat) (hd : d = 93 ∨ d = 125) (r : Str) (line : Nat) (pol : Policy) (log : List Report) :
+    ∀ (s : Str) (pend : Option CU) (acc : Str) (col k : Nat) (kd ks : Bool),
+      okUnits .cif2 pend s = true → pendOk .cif2 pend acc → s.all (fun x => !isWs x) = true →
+      s.all (fun x => !(x == 91 || x == 93 || x == 123 || x == 125)) = true →
+      ((!(kwAfter .cif2 k kd ks s).2.1 && !(kwAfter .cif2 k kd ks s).2.2) || decide ((kwAfter .cif2 k kd ks s).1 < 5)) = true →
+      scanUnquoted .cif2 (s ++ d :: r) line col pend.isSome acc k kd ks pol log
+        = .ok ⟨s.reverse ++ acc, ⟨d :: r, line, col + colAdd s⟩⟩ log := by
+  have hda : allowedBmp .cif2 d = true := by rcases hd with h | h <;> subst h <;> decide
+  have hdm : metaOfCls (classOf .cif2 d) = .close := by rcases hd with h | h <;> subst h <;> decide
+  intro s
+  induction s with
+  | nil =>
+    intro pend acc col k kd ks hok _ _ _ hflag
+    cases pend with
+    | some l => simp [okUnits] at hok
+    | none =>
+      simp only [kwAfter, List.foldl_nil] at hflag
+      simp only [List.nil_append, scanUnquoted, Option.isSome_none, bind_eq, pure_eq]
+      rw [L.bind_ok (scanUChar_bmp .cif2 d hda line col _ pol log)]
+      simp only [fixAcc_false, hdm]
+      split
+      · simp
+      · rename_i h; exact absurd hflag h
+  | cons c s ih =>
+    intro pend acc col k kd ks hok hp hnws hnbr hflag
+    obtain ⟨hstep, hok', hp', hf, _⟩ := ok_step .cif2 pend c s acc hok hp line col pol log
+    simp only [List.all_cons, Bool.and_eq_true, Bool.not_eq_true'] at hnws hnbr
+    simp only [List.cons_append, scanUnquoted, bind_eq, pure_eq]
+    rw [L.bind_ok hstep]
+    simp only [fixAcc_false]
+    have hmeta : metaOfCls (classOf .cif2 c) = .general := by
+      have h1 : ¬ metaOf .cif2 c = .ws := by rw [hf.mws]; simp [hnws.1]
+      have h2 : ¬ metaOf .cif2 c = .no := hf.mno
+      have hb := hnbr.1
+      simp only [Bool.or_eq_false_iff, beq_eq_false_iff_ne] at hb
+      have h3 : ¬ metaOf .cif2 c = .open_ := by
+        rw [hf.mopen]; rintro ⟨_, hc | hc⟩
+        · exact hb.1.1.1 hc
+        · exact hb.1.2 hc
+      have h4 : ¬ metaOf .cif2 c = .close := by
+        rw [hf.mclose]; rintro ⟨_, hc | hc⟩
+        · exact hb.1.1.2 hc
+        · exact hb.2 hc
+      simp only [metaOf] at h1 h2 h3 h4
+      cases hm : metaOfCls (classOf .cif2 c) <;> simp_all
+    simp only [hmeta]
+    have := ih (nextPend c) (c :: acc) (col + (if isTrailU c then 0 else 1)) (k + 1)
+      (if k < 5 then kd && (classOf .cif2 c == dataCls k) else kd) (if k < 5 then ks && (classOf .cif2 c == saveCls k) else ks)
+      hok' hp' hnws.2 hnbr.2 (by simp only [kwAfter, List.foldl_cons, kwStep] at hflag; exact hflag)
+    rw [isSome_nextPend] at this
+    rw [this, colAdd_cons]
+    simp [Nat.add_comm, Nat.add_left_comm]
+
+/-- after five or more units the flags are on only if the first five spell data_ / save_ (in any case) -/
+theorem kwAfter_flags (dia : Dialect) (s : Str)
+    (h : startsWithCI [100, 97, 116, 97, 95] s = false ∧ startsWithCI [115, 97, 118, 101, 95] s = false) :
+    ((!(kwAfter dia 0 true true s).2.1 && !(kwAfter dia 0 true true s).2.2) || decide ((kwAfter dia 0 true true s).1 < 5)) = true := by
+  match s with
+  | [] => simp [kwAfter]
+  | [_] => simp [kwAfter, kwStep]
+  | [_, _] => simp [kwAfter, kwStep]
+  | [_, _, _] => simp [kwAfter, kwStep]
+  | [_, _, _, _] => simp [kwAfter, kwStep]
+  | a :: b :: c :: d :: e :: rest =>
+    have fa := LF.all dia a; have fb := LF.all dia b; have fc := LF.all dia c; have fd := LF.all dia d
+    have fe := LF.all dia e
+    simp only [startsWithCI, List.length_cons, List.length_nil, List.take, List.map_cons, List.map_nil,
+      beq_eq_false_iff_ne, ne_eq, List.cons.injEq, and_true, not_and] at h
+    obtain ⟨h1, h2⟩ := h
+    have e5 : kwAfter dia 0 true true (a :: b :: c :: d :: e :: rest)
+        = kwAfter dia 5 (classOf dia a == .d && classOf dia b == .a && classOf dia c == .t && classOf dia d == .a && classOf dia e == .undersc)
+            (classOf dia a == .s && classOf dia b == .a && classOf dia c == .v && classOf dia d == .e && classOf dia e == .undersc) rest := by
+      simp [kwAfter, kwStep, dataCls, saveCls]
+    rw [e5, kwAfter_ge5 dia rest 5 _ _ (by omega)]
+    simp only [Bool.or_eq_true, Bool.and_eq_true, Bool.not_eq_true', decide_eq_true_eq]
+    left
+    constructor
+    · simp only [Bool.and_eq_false_iff, beq_eq_false_iff_ne, ne_eq]
+      by_cases g1 : classOf dia a = .d
+      · by_cases g2 : classOf dia b = .a
+        · by_cases g3 : classOf dia c = .t
+          · by_cases g4 : classOf dia d = .a
+            · right
+              intro g5
+              exact h1 (fa.d.mp g1) (fb.a.mp g2) (fc.t.mp g3) (fd.a.mp g4) (fe.u.mp g5)
+            · exact Or.inl (Or.inr g4)
+          · exact Or.inl (Or.inl (Or.inr g3))
+        · exact Or.inl (Or.inl (Or.inl (Or.inr g2)))
+      · exact Or.inl (Or.inl (Or.inl (Or.inl g1)))
+    · simp only [Bool.and_eq_false_iff, beq_eq_false_iff_ne, ne_eq]
+      by_cases g1 : classOf dia a = .s
+      · by_cases g2 : classOf dia b = .a
+        · by_cases g3 : classOf dia c = .v
+          · by_cases g4 : classOf dia d = .e
+            · right
+              intro g5
+              exact h2 (fa.s.mp g1) (fb.a.mp g2) (fc.v.mp g3) (fd.e.mp g4) (fe.u.mp g5)
+            · exact Or.inl (Or.inr g4)
+          · exact Or.inl (Or.inl (Or.inr g3))
+        · exact Or.inl (Or.inl (Or.inl (Or.inr g2)))
+      · exact Or.inl (Or.inl (Or.inl (Or.inl g1)))
+
+
+/-- the one shape of whitespace-delimited value the CURRENT scanner does not end at a closing bracket: `;` followed by
+    data_ / save_ (any case) — open finding F33 -/
+def semiKwFree (s : Str) : Bool :=
+  match s with
+  | [] => true
+  | c :: t => !(c == 59 && (startsWithCI [100, 97, 116, 97, 95] t || startsWithCI [115, 97, 118, 101, 95] t))
+
+theorem stepTok_bare_close (dia : Dialect) (hdia : dia = .cif2) (s : Str) (dc : Nat) (hdc : dc = 93 ∨ dc = 125) (rest : Str)
+    (line col : Nat) (pol : Policy) (log : List Report)
+    (hok : bareOk dia s = true) (hsemi : semiOk s col = true) (hkw : semiKwFree s = true) :
+    ∃ c r, s = c :: r ∧
+    stepTok dia true c (r ++ dc :: rest) line col pol log
+      = .ok (.tok ⟨.value, s, line, col + colAdd s⟩ ⟨dc :: rest, line, col + colAdd s⟩) log := by
+  cases s with
+  | nil => simp [bareOk] at hok
+  | cons c r =>
+    refine ⟨c, r, rfl, ?_⟩
+    simp only [bareOk, Bool.and_eq_true, Bool.not_eq_true', Bool.or_eq_false_iff, beq_eq_false_iff_ne, ne_eq] at hok
+    obtain ⟨⟨⟨⟨hunits, hnws⟩, hfirst⟩, hbr⟩, hres⟩ := hok
+    have hbr2 : dia = .cif2 → (c :: r).all (fun x => !(x == 91 || x == 93 || x == 123 || x == 125)) = true := by
+      intro hd; subst hd; exact hbr
+    have hf : UF dia c := okUnits_head_facts dia c r hunits
+    have hnws1 : isWs c = false := by
+      simp only [List.all_cons, Bool.and_eq_true, Bool.not_eq_true'] at hnws; exact hnws.1
+    have hmeta : metaOfCls (classOf dia c) ≠ .ws ∧ metaOfCls (classOf dia c) ≠ .open_ ∧ metaOfCls (classOf dia c) ≠ .close := by
+      refine ⟨?_, ?_, ?_⟩
+      · have := hf.mws; simp only [metaOf] at this; intro h; have h' := this.mp h; simp [hnws1] at h'
+      · have := hf.mopen; simp only [metaOf] at this; intro h; obtain ⟨hd, hc⟩ := this.mp h
+        have := hbr2 hd
+        simp only [List.all_cons, Bool.and_eq_true, Bool.not_eq_true', Bool.or_eq_false_iff, beq_eq_false_iff_ne] at this
+        rcases hc with hc | hc
+        · exact this.1.1.1.1 hc
+        · exact this.1.1.2 hc
+      · have := hf.mclose; simp only [metaOf] at this; intro h; obtain ⟨hd, hc⟩ := this.mp h
+        have := hbr2 hd
+        simp only [List.all_cons, Bool.and_eq_true, Bool.not_eq_true', Bool.or_eq_false_iff, beq_eq_false_iff_ne] at this
+        rcases hc with hc | hc
+        · exact this.1.1.1.2 hc
+        · exact this.1.2 hc
+    have hc1 : ¬ classOf dia c = .eol := by rw [hf.eol]; simp [isWs, isEol] at hnws1; exact hnws1.2
+    have hc2 : ¬ classOf dia c = .ws := by rw [hf.ws]; simp [isWs] at hnws1; simp [hnws1.1]
+    have hc3 : ¬ classOf dia c = .hash := by rw [hf.hash]; exact hfirst.1.1.1.2
+    have hc4 : ¬ classOf dia c = .undersc := by rw [hf.undersc]; exact hfirst.2
+    have hc9 : ¬ classOf dia c = .quote := by rw [hf.quote]; rintro (h | h); exact hfirst.1.1.1.1 h; exact hfirst.1.2 h
+    have hc5 : ¬ classOf dia c = .obrak := by intro h; apply hmeta.2.1; rw [h]; rfl
+    have hc6 : ¬ classOf dia c = .cbrak := by intro h; apply hmeta.2.2; rw [h]; rfl
+    have hc7 : ¬ classOf dia c = .ocurl := by intro h; apply hmeta.2.1; rw [h]; rfl
+    have hc8 : ¬ classOf dia c = .ccurl := by intro h; apply hmeta.2.2; rw [h]; rfl
+    have hcv := classify_value dia (c :: r) hres
+    simp only [stepTok, bind_eq, pure_eq]
+    have hrep : ((metaOfCls (classOf dia c) != Meta.close && metaOfCls (classOf dia c) != Meta.ws && !true) = false) := by simp
+    simp only [hrep, reportIf_false, L.pure_bind, hc1, hc2, hc3, hc4, hc5, hc6, hc7, hc8, hc9, if_false]
+    by_cases hs : classOf dia c = .semi
+    · have hc59 : c = 59 := hf.semi.mp hs
+      subst hc59
+      have hcol : ¬ col + 1 = 1 := by
+        simp [semiOk] at hsemi; omega
+      simp only [hs, if_true, hcol, if_false]
+      have hunits' : okUnits dia none r = true := by
+        have := (ok_step dia none 59 r [] hunits trivial 0 0 acceptAll []).2.1
+        simpa [nextPend, isLeadU] using this
+      have hnws' : r.all (fun x => !isWs x) = true := by
+        simp only [List.all_cons, Bool.and_eq_true] at hnws; exact hnws.2
+      have hbr' : dia = .cif2 → r.all (fun x => !(x == 91 || x == 93 || x == 123 || x == 125)) = true := by
+        intro hd; have := hbr2 hd; simp only [List.all_cons, Bool.and_eq_true] at this; exact this.2
+      have hfl : ((!(kwAfter .cif2 0 true true r).2.1 && !(kwAfter .cif2 0 true true r).2.2)
+          || decide ((kwAfter .cif2 0 true true r).1 < 5)) = true := by
+        apply kwAfter_flags
+        simpa [semiKwFree] using hkw
+      have hscan := scanUnquoted_close dc hdc rest line pol log r none [59] (col + 1) 0 true true (hdia ▸ hunits') trivial hnws' (hbr' hdia) hfl
+      rw [← hdia] at hscan
+      simp only [Option.isSome_none] at hscan
+      rw [L.bind_ok hscan]
+      have : (r.reverse ++ [59]).reverse = 59 :: r := by simp
+      simp only [this, finishUnquoted, hcv, L.pure_apply, mkTok, colAdd_cons]
+      simp [isTrailU, Nat.add_assoc]
+    · simp only [hs, if_false, Nat.add_sub_cancel]
+      have hfl : ((!(kwAfter .cif2 0 true true (c :: r)).2.1 && !(kwAfter .cif2 0 true true (c :: r)).2.2)
+          || decide ((kwAfter .cif2 0 true true (c :: r)).1 < 5)) = true := by
+        apply kwAfter_flags
+        simp only [isReservedWord, Bool.or_eq_false_iff] at hres
+        exact ⟨hres.1.1.1.1, hres.1.1.1.2⟩
+      have hscan := scanUnquoted_close dc hdc rest line pol log (c :: r) none [] col 0 true true (hdia ▸ hunits) trivial hnws (hbr2 hdia) hfl
+      rw [← hdia] at hscan
+      simp only [Option.isSome_none, List.cons_append] at hscan
+      rw [L.bind_ok hscan]
+      simp [finishUnquoted, hcv, mkTok]
+
 
 end CifModel.Model.Lexer
